@@ -102,7 +102,7 @@ const APRE: &[&str] = &["", "e", "1", "e ", "e\n", "+", "\"a", "// c", "\"a\nb\"
 const APOST: &[&str] =
     &["", "\n", "\r\n", "1", "e", "\ne", "\r\ne 1", "\n1 e\n\"a\"\n", " \n", "\"\ne 1", "\n\n", "\n// c\ne"];
 /// Trace_Lex!APairCtx
-const APAIRCTX: &[(&str, &str)] = &[("e ", "\ne"), ("", ""), ("\"", "\"\ne"), ("//", "\ne")];
+const APAIRCTX: &[(&str, &str)] = &[("", "\ne"), ("e ", "\ne 1"), ("\"", "\"\ne"), ("//", "\ne")];
 
 /// Trace_Lex!BigTwoExps, BigTenExps, BigZeros, BigPre, BigPost
 const BIG_TWO: &[u32] = &[7, 8, 15, 16, 31, 32, 53, 62, 63, 64, 65, 127, 128];
